@@ -582,13 +582,13 @@ func runC15(ctx Ctx) int {
 	}
 	pairBound, tripleBound, perScenario := 1, 1, 60
 	if run.Tier == "thorough" {
-		pairBound, tripleBound, perScenario = 2, 2, 2400
+		pairBound, tripleBound, perScenario = 2, 2, 240
 	}
 	exe := os.Getenv("VERIF_VCHECK")
 	if exe == "" {
 		exe, _ = os.Executable()
 	}
-	deadline := devx.Deadline(map[string]time.Duration{"quick": 6 * time.Minute, "thorough": 150 * time.Minute}[run.Tier])
+	deadline := devx.Deadline(map[string]time.Duration{"quick": 6 * time.Minute, "thorough": 25 * time.Minute}[run.Tier])
 	var mu sync.Mutex
 	truncated := 0
 	// self-test of instrumenter + shims + scheduler on small programs with known outcome sets
